@@ -129,3 +129,77 @@ Section RFAlg.
     rewrite E, (Z.mod_small x n) by lia. split; reflexivity.
   Qed.
 End RFAlg.
+
+(** ** the dyadic (integer) orbit the extracted driver runs is the field orbit *)
+Section ZOrbit.
+  Variable K : Fld.
+  Add Field KFz : (@Fth K).
+  Local Open Scope F_scope.
+
+  Definition p2 (e : Z) : K := fz (2 ^ e)%Z.
+
+  Lemma p2_nz e : (0 <= e)%Z -> p2 e <> 0.
+  Proof.
+    intros He. pattern e. apply natlike_ind; [| |exact He].
+    - change (p2 0) with (1 : K). intro H. apply (@nz2 K). rewrite H. ring.
+    - intros x Hx IH. unfold p2 in *. rewrite Z.pow_succ_r by exact Hx. rewrite fz_mul.
+      apply mul_nz; [|exact IH].
+      intro H2. apply (@nz2 K). rewrite <- H2. cbn [fz fpos]. unfold two. ring.
+  Qed.
+
+  Lemma p2_add a b : (0 <= a)%Z -> (0 <= b)%Z -> p2 (a + b) = p2 a * p2 b.
+  Proof. intros Ha Hb. unfold p2. rewrite Z.pow_add_r by assumption. apply fz_mul. Qed.
+
+  Lemma zstep_correct (E T A U V : Z) (q : K) :
+    (0 <= E)%Z -> q <> 0 ->
+    cstep (fz T / p2 E) (fz A / p2 E) (fz U / q, fz V / q) =
+    (fz (fst (zstep E T A (U, V))) / (q * p2 E * p2 E), fz (snd (zstep E T A (U, V))) / (q * p2 E * p2 E)).
+  Proof.
+    intros HE Hq. pose proof (p2_nz E HE) as Hp.
+    unfold cstep, drift_step, rf_step, zstep. cbn [fst snd].
+    rewrite !Z.shiftl_mul_pow2 by exact HE.
+    rewrite !fz_sub, !fz_mul, !fz_add, !fz_mul. fold (p2 E).
+    f_equal; field; repeat split; assumption.
+  Qed.
+
+  Theorem zorbit_correct (E T A U V s : Z) (k : nat) :
+    (0 <= E)%Z -> (0 <= s)%Z ->
+    orbit (fz T / p2 E) (fz A / p2 E) (fz U / p2 s, fz V / p2 s) k =
+    (fz (fst (zorbit E T A (U, V) k)) / p2 (s + 2 * E * Z.of_nat k),
+     fz (snd (zorbit E T A (U, V) k)) / p2 (s + 2 * E * Z.of_nat k)).
+  Proof.
+    intros HE Hs. induction k as [|k IH]; cbn [orbit zorbit].
+    - replace (s + 2 * E * Z.of_nat 0)%Z with s by lia. reflexivity.
+    - rewrite IH. destruct (zorbit E T A (U, V) k) as [Uk Vk]. cbn [fst snd].
+      rewrite zstep_correct by (try assumption; apply p2_nz; lia).
+      replace (s + 2 * E * Z.of_nat (S k))%Z with ((s + 2 * E * Z.of_nat k) + E + E)%Z by lia.
+      rewrite !p2_add by lia. reflexivity.
+  Qed.
+End ZOrbit.
+
+(** ** C08, RF and drift part: every bunch receives the same RF kick and the same drift.
+    KickMap::apply (kick along y) reads, for bunch b and row x, the table rows built from
+    offset entry min(b, nb-1)*n + x; the RF offset vector carries the field there for every b.
+    KickMap::apply (kick along x) reads entry y for every bunch; the drift writes exactly these. *)
+Theorem C08_rf_offsets_all_bunches (K : Fld) (n nb : Z) (f : Z -> K) (b x : Z) :
+  (0 <= b < nb)%Z -> (0 <= x < n)%Z ->
+  rf_offsets n f (Z.min b (nb - 1) * n + x) = f x /\
+  rf_offsets n f (Z.min b (nb - 1) * n + x) = rf_offsets n f (Z.min 0 (1 - 1) * n + x).
+Proof.
+  intros Hb Hx.
+  destruct (rf_offsets_all_bunches K n f (Z.min b (nb - 1)) x Hx) as [A _].
+  destruct (rf_offsets_all_bunches K n f (Z.min 0 (1 - 1)) x Hx) as [B _].
+  rewrite A, B. split; reflexivity.
+Qed.
+
+Theorem C08_drift_offsets_all_bunches (K : Fld) (n : Z) (f : Z -> K) (y : Z) :
+  (0 <= y < n)%Z ->
+  drift_offsets n f y = f y /\
+  (forall i, (n <= i)%Z -> drift_offsets n f i = f0).
+Proof.
+  intros Hy. unfold drift_offsets. split.
+  - replace ((0 <=? y)%Z && (y <? n)%Z)%bool with true; [reflexivity|].
+    symmetry. apply andb_true_iff. split; [apply Z.leb_le | apply Z.ltb_lt]; lia.
+  - intros i Hi. replace (i <? n)%Z with false by (symmetry; apply Z.ltb_ge; lia).
+    rewrite andb_false_r. reflexivity.
+Qed.
